@@ -174,10 +174,27 @@ class Gen(kgen.Gen):
         for (x, y, z) in ((0, 1, 2), (0, 2, 3), (0, 3, 1), (1, 3, 2)):
             self.tet(o, p[x], p[y], p[z])
 
+    def tet_edge_glued(self):
+        """NON-MANIFOLD edge: two (or three) tet fans that share ONLY the edge a-b, optionally a tet glued on a face of the first
+        one and a free face hanging on the edge; the halffaces around a-b then keep their insertion order with cell-less ones in
+        the middle (reorder_incident_halffaces gives up on such an edge)"""
+        r = self.r
+        base = self.st().nv
+        n = 2 + r.below(2)
+        self.add_vertices(2 + 2 * n + 2)
+        a, b = base, base + 1
+        if r.chance(1, 2): self.pre_face((a, b, base + 2 + 2 * n))          # a free face on the edge, inserted first
+        for i in r.shuffle(range(n)):
+            p, q = base + 2 + 2 * i, base + 3 + 2 * i
+            self.tet(a, b, p, q)
+            if i == 0 and r.chance(1, 2): self.tet(a, q, p, base + 3 + 2 * n)   # glued on face a-p-q of the first one
+            if r.chance(1, 3): self.pre_face((b, a, base + 2 + 2 * n))
+
     def tet_build(self):
         r = self.r
         for _ in range(1 + r.below(2)):
-            c = r.below(8)
+            c = r.below(10)
+            if c >= 8: self.tet_edge_glued(); continue
             if c == 0: self.tet_fan(3 + r.below(3), closed=True)
             elif c == 1: self.tet_fan(1 + r.below(4), closed=False)
             elif c in (2, 3): self.tet_strip(1 + r.below(4))
@@ -297,8 +314,9 @@ class Gen(kgen.Gen):
 
     def hex_build(self):
         r = self.r
-        c = r.below(7)
-        if c == 0: self.hex_block(1 + r.below(3), 1, 1)
+        c = r.below(9)
+        if c >= 7: self.hex_block(3, 3, 1 if c == 7 else 1 + r.below(2))      # a cell whose four sides orthogonal to an axis are all interior
+        elif c == 0: self.hex_block(1 + r.below(3), 1, 1)
         elif c == 1: self.hex_block(2, 2, 1, holes=r.below(2))
         elif c == 2: self.hex_block(2, 2, 2, holes=r.below(3))
         elif c == 3: self.hex_ring(3 + r.below(3))
